@@ -102,10 +102,7 @@ Print Assumptions C14_execprogram_eq_new_execute.
 (* every reachable state keeps the program constants, the sizes of globals / global arrays, and nativeFuncs *)
 Theorem C14_reachable_invariant :
   forall sv e pc F I run, hyps sv I run -> forall g, reachable sv e pc F I run g -> Inv e pc F g.
-Proof.
-  intros sv e pc F I run [H1 [H2 [H3 [H4 [H5 [H6 H7]]]]]] g Hr.
-  exact (reachable_Inv sv e pc F I run H2 H3 H4 H5 H6 H7 g Hr).
-Qed.
+Proof. exact reachable_invariant_hyps. Qed.
 Print Assumptions C14_reachable_invariant.
 
 (* ---- non-vacuity ---- *)
